@@ -74,3 +74,7 @@ def run(ctx):
     ctx.sample({"H": meta[3][0], "timeline": meta[3][1], "commands": execs[3].cmds[-6:]})
     ctx.trusted = ["TLC", "probe_session + virtual clock seam (clock_gettime interposition)", "lib/fixmsg.py"]
     ctx.assumptions = ["instants on a whole-second grid; supervision callback invoked synchronously"]
+
+
+def replay(ctx, doc):
+    sc.replay_case(ctx, doc)
